@@ -654,7 +654,7 @@ def tagread_exec(run, fx):
                 try:
                     r = it.call(fn, None, [O.It(buf, 0)])
                 except O.Violation as v:
-                    run.violated('TAGREAD', inst, fn.where(), '%s in a buffer of %d bytes: %s (%s) -- a byte behind the terminating NUL is read' % (desc, L + 1, v.what, v.loc))
+                    run.violated('TAGREAD', inst, fn.where(), '%s in a buffer of %d bytes: %s (%s)%s' % (desc, L + 1, v.what, v.loc, '' if 'never written' in v.what else ' -- a byte behind the terminating NUL is read'))
                     return
                 if not isinstance(r, int):
                     raise AnalysisBroken('gr_str_to_tag returns a %s' % type(r).__name__)
